@@ -49,7 +49,7 @@ Promote(res, oth) ==
     LET kw   == ChildKw([oth EXCEPT !.ch = <<>>])
         keys == IF res.k = "list" /\ IsFn(oth) THEN [i \in 1..Len(res.ch) |-> IKey(i - 1)] ELSE NKeys(res)
         chs  == [i \in 1..Len(res.ch) |-> <<keys[i], Adopt(res.ch[i][2], kw, FALSE, PrNone)>>]
-    IN [res EXCEPT !.k = oth.k, !.fn = oth.fn, !.ch = chs]
+    IN [res EXCEPT !.k = oth.k, !.fn = oth.fn, !.ref = IF IsFn(oth) THEN oth.ref ELSE @, !.ch = chs]
 
 \* a merge result: the node and which of the two objects it is ("self"/"other")
 R(n, id) == [n |-> n, id |-> id]
@@ -148,6 +148,11 @@ ValidIndex(l, k) == IsIntKey(k) /\ k.n >= 0 /\ k.n < Len(l.ch)
 
 StrLike(n) == (n.k = "scalar" /\ IsStrAtom(n.v)) \/ n.k \in {"xref", "prev", "import", "eval", "fstr"}
 StrOf(n) == IF n.k \in {"xref", "prev"} THEN PathStr(n.ref) ELSE n.v[2]
+\* A function node whose target name cannot be imported carries the marker NoImport in its (otherwise unused) ref field;
+\* the projection of the library's trees sets it by trying the import.  By convention of the universes every name written
+\* after !call: / !bind: / !import and every string scalar is importable, a path expression or evaluated code is not.
+NoImport == <<SKey("?")>>
+ImportMark(n) == IF n.k \in {"xref", "prev", "eval", "fstr"} THEN NoImport ELSE <<>>
 
 RECURSIVE Merge(_, _, _), MergeKids(_, _, _, _)
 
@@ -158,13 +163,13 @@ Merge(self, other, path) ==
     THEN \* function.py:52-60 a string names a new target (`isinstance(other, str)`: every node class derived
          \* from ConfigScalar(str) counts - plain strings, but also !xref, !prev, !import, !eval and f-string nodes)
          IF HasPriorityOver(other, self, TRUE)
-         THEN R(Propagate(ReplaceSelfFlags([self EXCEPT !.fn = StrOf(other), !.ch = <<>>], other)), "self")
+         THEN R(Propagate(ReplaceSelfFlags([self EXCEPT !.fn = StrOf(other), !.ref = ImportMark(other), !.ch = <<>>], other)), "self")
          ELSE R(ReplaceOtherFlags(self, other), "self")
     ELSE IF IsFn(self) /\ IsFn(other) /\ self.fn # other.fn /\ ~HasPriorityOver(other, self, TRUE)
     THEN R(ReplaceOtherFlags(self, other), "self")                 \* function.py:67-70
     ELSE
     LET self0 == IF IsFn(self) /\ IsFn(other) /\ self.fn # other.fn
-                 THEN [self EXCEPT !.fn = other.fn, !.ch = IF EffDel(other) THEN <<>> ELSE @]
+                 THEN [self EXCEPT !.fn = other.fn, !.ref = other.ref, !.ch = IF EffDel(other) THEN <<>> ELSE @]
                  ELSE self
         badKeys == IsList(self0) /\ IsDict(other) /\ \E i \in 1..Len(other.ch) : ~ValidIndex(self0, other.ch[i][1])
         other1 == IF IsList(self0) /\ IsComposed(other) THEN PreFilter(other, <<>>, self0) ELSE other
